@@ -304,7 +304,7 @@ func verifyMerkleProof(
 
 	sp := bscProof.StorageProof[0]
 	storageKey := crypto.Keccak256(common.HexToHash(sp.Key).Bytes())
-	if !bytes.Equal(storageKey, proofKey) {
+	if !bytes.Equal(common.HexToHash(sp.Key).Bytes(), proofKey) {
 		return fmt.Errorf("verifyMerkleProof,storageKey is error, storage key: %s, Key path: %s", storageKey, proofKey)
 	}
 	for _, prf := range sp.Proof {
